@@ -15,6 +15,9 @@ def _paths(v, prefix=()):
             yield from _paths(x, prefix + (i,))
 
 
+NONSTR_KEYS = [5, 0, None, True, 1.5, {"$py": "tuple", "items": ["root"]}, {"$py": "bytes", "hex": "726f6f74"}]
+
+
 def paths(doc):
     return list(_paths(doc))
 
@@ -35,6 +38,15 @@ def apply(doc, mut):
         return d
     if op == "dupitem":
         cur.insert(arg, copy.deepcopy(cur[arg]))
+        return d
+    if op == "retypekey":
+        # cur[arg[0]] is a plain dict: one of its keys (arg[1]) is replaced by a NON-string hashable (case-language value arg[2])
+        inner = cur[arg[0]] if arg[0] is not None else cur
+        items = [[(arg[2] if k == arg[1] else k), v] for k, v in inner.items()]
+        new = {"$py": "pydict", "items": items}
+        if arg[0] is None:
+            return new
+        cur[arg[0]] = new
         return d
     if op == "renamekey":
         # cur is a dict: rename key arg[0] -> arg[1]
@@ -63,6 +75,8 @@ def random_mutation(doc, rng, palette, ps=None):
     if type(target) is list and target:
         return ["dupitem", list(p), rng.randrange(len(target))]
     parent = jsonvals.get_path(doc, p[:-1])
+    if p and type(target) is dict and target and "$py" not in target and all(isinstance(k, str) for k in target) and rng.random() < 0.5:
+        return ["retypekey", list(p[:-1]), [p[-1], rng.choice(sorted(target)), rng.choice(NONSTR_KEYS)]]
     if type(parent) is dict:
         k = p[-1]
         return ["renamekey", list(p[:-1]), [k, rng.choice([k + " ", k.upper(), k + "\x00", " " + k, k[:-1] if k else "x"])]]
@@ -83,3 +97,8 @@ def systematic(doc, palette):
         if type(target) is list:
             for i in range(len(target)):
                 yield ["dupitem", list(p), i]
+        if p and type(target) is dict and target and "$py" not in target and all(isinstance(k, str) for k in target):
+            # Python-level documents: a key of this mapping that is not a string
+            k0 = sorted(target)[0]
+            for nk in NONSTR_KEYS:
+                yield ["retypekey", list(p[:-1]), [p[-1], k0, nk]]
